@@ -22,7 +22,10 @@ TRUSTED_BASE = [
     "modelled, not verified; tied to the code only by the correspondence runs of this check",
     "the reference semantics Spec/SC.lean and Spec/RC11.lean are specifications (trusted as such); the SC enumerator "
     "Oracle/SCEnumV.lean is PROVED sound and complete for Spec/SC.lean when it reports 'not capped' (Props/Oracle.lean); "
-    "the RC11 enumerator Oracle/RC11Enum.lean is trusted",
+    "the RC11 enumerator Oracle/RC11EnumV.lean is PROVED sound and complete for Spec/RC11.lean (all reachable complete "
+    "pre-executions x all modification orders x Graph.consistent) when it reports 'not capped' (Props/OracleRC11.lean); "
+    "the generation of pre-executions (Oracle/RC11Enum.lean pstep: every read may return any value written to its "
+    "location) is part of the specification",
     "the Rust harness /verif/harness (DSL interpreter over the real loom API, record printer), the "
     "verif-hooks dump code in /repo, the Python orchestrator (generation, diffing, classification)",
     "clocks/counters are Nat in the model and u16/usize in the code (no overflow below "
